@@ -35,7 +35,7 @@ pub fn default_cfg() -> SCfg { SCfg { cltv_delta: 34, policy_delta: 144, base: 1
 type Mgr = HtlcManager<BlockWatcher, NoNotify, PayPaymentProvider<Rpc>, ClnDatastore>;
 
 /// one delivered `htlc_accepted` call
-pub struct Call { pub id: u64, pub a: u64, pub b11: u8, pub amount: u64, pub expiry: u32, pub hash: Vec<u8>, pub jh: Option<tokio::task::JoinHandle<Result<HtlcAcceptedResponse, ()>>>, pub resp: Option<String>, pub life: u32 }
+pub struct Call { pub id: u64, pub a: u64, pub b11: u8, pub t: u64, pub rejecting: bool, pub amount: u64, pub expiry: u32, pub hash: Vec<u8>, pub jh: Option<tokio::task::JoinHandle<Result<HtlcAcceptedResponse, ()>>>, pub resp: Option<String>, pub life: u32 }
 
 /// everything that survives a crash
 pub struct World {
@@ -65,6 +65,9 @@ pub struct World {
     pub init_snap: Option<(u64, u32)>,
     pub other: Option<(String, Vec<u8>, String)>,   // a second payment hash frozen at its first RPC: (hash hex, hash, invoice)
     pub other_call: Option<tokio::task::JoinHandle<Result<HtlcAcceptedResponse, ()>>>,
+    pub other_depth: usize,      // how many of the other hash's RPCs are answered before it is frozen
+    pub other_frozen_log: usize, // number of requests the other hash had issued when it was frozen (this lifetime)
+    pub idle_since: Option<u64>, // C11: since when (virtual s) HTLCs are held with no RPC outstanding and no pay running
     pub no_pay: Vec<u64>,        // C07: calls of a set that was rejected while incomplete (no pay until they are answered)
     pub hold: Vec<u64>,          // parked requests (by seq) the cooperative environment leaves unanswered for now
 }
@@ -80,7 +83,7 @@ impl World {
         { let mut n = node.lock().unwrap(); n.height = 1000; n.node_id = pubkey(LOCAL).to_string(); }
         World { node, hash_hex: hash.to_string(), hash: hash.to_byte_array().to_vec(),
             inv_fixed: make_invoice(&pre, Some(1_000_000), 0, 2), inv_open: make_invoice(&pre, None, 0, 2), open, inv_amount: 1_000_000, cfg,
-            calls: vec![], aids: vec![], acts: vec![], obs: vec![], life: 0, fault_read: false, lost_write: false, fault_kind: String::new(), height: 1000, model_wall: 0, stamp: BTreeMap::new(), mono: 0, wait_started: None, next_part: 1, restart_aid: None, init_snap: None, other: None, other_call: None, no_pay: vec![], hold: vec![] }
+            calls: vec![], aids: vec![], acts: vec![], obs: vec![], life: 0, fault_read: false, lost_write: false, fault_kind: String::new(), height: 1000, model_wall: 0, stamp: BTreeMap::new(), mono: 0, wait_started: None, next_part: 1, restart_aid: None, init_snap: None, other: None, other_call: None, other_depth: 0, other_frozen_log: 0, idle_since: None, no_pay: vec![], hold: vec![] }
     }
     fn aid_canon(&mut self, aid: &str) -> usize {
         if let Some(p) = self.aids.iter().position(|a| a == aid) { return p + 1; }
@@ -121,9 +124,9 @@ fn req_token(w: &mut World, method: &str, params: &Value) -> String {
 /// parked requests (not getinfo) as (index in parked, token with ordinal)
 fn parked_tokens(w: &mut World) -> Vec<(usize, String, bool)> {
     node::reap(&w.node);
-    let other_hex = w.other.as_ref().map(|o| o.0.clone());
+    let other_keys = w.other.as_ref().map(|o| (o.0.clone(), o.2.clone()));
     let snapshot: Vec<(usize, String, Value, bool)> = { let n = w.node.lock().unwrap(); n.parked.iter().enumerate().filter(|(_, p)| p.method != "getinfo")
-        .filter(|(_, p)| other_hex.as_ref().map(|h| !p.params.to_string().contains(h.as_str())).unwrap_or(true))
+        .filter(|(_, p)| other_keys.as_ref().map(|(h, inv)| { let t = p.params.to_string(); !t.contains(h.as_str()) && !t.contains(inv.as_str()) }).unwrap_or(true))
         .map(|(i, p)| (i, p.method.clone(), p.params.clone(), p.served.is_some())).collect() };
     let mut seen: BTreeMap<String, u32> = BTreeMap::new();
     let mut out = Vec::new();
@@ -212,7 +215,8 @@ async fn observe(w: &mut World, ctx: &mut Ctx, pay_seen: &mut Vec<u64>, act: &st
     }
     // new pay requests
     let mut pays: Vec<String> = Vec::new();
-    let pay_params: Vec<(u64, Value)> = { let n = w.node.lock().unwrap(); n.parked.iter().filter(|p| p.method == "pay").map(|p| (p.seq, p.params.clone())).collect() };
+    let other_inv = w.other.as_ref().map(|o| o.2.clone());
+    let pay_params: Vec<(u64, Value)> = { let n = w.node.lock().unwrap(); n.parked.iter().filter(|p| p.method == "pay" && other_inv.as_ref().map(|i| p.params["bolt11"].as_str() != Some(i.as_str())).unwrap_or(true)).map(|p| (p.seq, p.params.clone())).collect() };
     let msat = |v: &Value| -> Option<u64> { v.as_u64().or_else(|| v.as_str().and_then(|s| s.trim_end_matches("msat").parse().ok())) };
     for (seq, p) in pay_params {
         if pay_seen.contains(&seq) { continue; }
@@ -227,6 +231,25 @@ async fn observe(w: &mut World, ctx: &mut Ctx, pay_seen: &mut Vec<u64>, act: &st
         { let mut n = w.node.lock().unwrap(); *n.pay_running.entry(w.hash_hex.clone()).or_insert(0) += 1; }
     }
     oracle_step(w, ctx, &resps, act);
+    // C11 (upper bound): HTLCs held, nothing outstanding, no pay running = the plugin waits on its MPP timer.
+    // That state may last at most one timeout (after a restart path: at most the remaining time, which is less).
+    let incomplete = { let h = held(w); let sum: u128 = h.iter().map(|c| c.amount as u128).sum(); h.first().map(|c| sum < need(w, c.a)).unwrap_or(false) };
+    let quiet_now = w.node.lock().unwrap().quiet(&w.hash_hex);
+    let idle = !held(w).is_empty() && out.is_empty() && incomplete && quiet_now;
+    if idle && !w.fault_read {
+        match w.idle_since {
+            None => w.idle_since = Some(w.mono),
+            Some(t0) => if w.mono.saturating_sub(t0) >= w.cfg.mpp && w.mono > t0 { ctx.violation("C11,C06", "timeout-late", &format!("htlcs {:?} still held {} s after the plugin began waiting (mpp timeout {} s) REPLAY[{}]", held(w).iter().map(|c| c.id).collect::<Vec<_>>(), w.mono.saturating_sub(t0), w.cfg.mpp, replay(w))); w.idle_since = Some(u64::MAX / 2); }
+        }
+    } else { w.idle_since = None; }
+    // C11 (lower bound): a set with no attempt ever on record and no rejecting member is not failed before the timeout
+    if w.aids.is_empty() && !w.fault_read && !resps.is_empty() && resps.iter().all(|(_, r)| r == "fail:2019") {
+        let set: Vec<&Call> = resps.iter().map(|(i, _)| &w.calls[*i as usize]).collect();
+        if !set.iter().any(|c| c.rejecting) {
+            let first = set.iter().map(|c| c.t).min().unwrap_or(0);
+            if w.mono - first < w.cfg.mpp { ctx.violation("C11", "timeout-early", &format!("htlcs {:?} failed {} s after the first arrived (mpp timeout {} s, no policy rejection, no earlier attempt) REPLAY[{}]", set.iter().map(|c| c.id).collect::<Vec<_>>(), w.mono - first, w.cfg.mpp, replay(w))); }
+        }
+    }
     if panicked { ctx.violation("C06", "system-panic", &format!("an htlc_accepted call panicked REPLAY[{}]", replay(w))); }
     format!("out=[{}] resp=[{}] pay=[{}]", out.join(","), resps.iter().map(|(i, s)| format!("{}={}", i, s)).collect::<Vec<_>>().join(","), pays.join(","))
 }
@@ -307,15 +330,17 @@ pub async fn apply(w: &mut World, p: &Plugin, rng: &mut Rng, act: &str) -> Step 
         let req = make_req(w, b11, tlv, hamt, expiry, rel, total, id);
         // C07 bookkeeping, from the property's own words: does this HTLC trigger a rejection of a still-incomplete set?
         let is_tramp = w.open || amt == w.inv_amount;
+        let mut rejecting_flag = false;
         if is_tramp {
             let (first, sum): (Option<(u8, u64)>, u128) = { let h = held(w); (h.first().map(|c| (c.b11, c.a)), h.iter().map(|c| c.amount as u128).sum()) };
             let (b0, a0) = first.unwrap_or((b11, amt));
             let rejecting = (b11, amt) != (b0, a0) || rel < w.cfg.policy_delta as i64 || (total.unwrap_or(hamt) as u128) < need(w, amt);
+            rejecting_flag = rejecting;
             if rejecting && sum < need(w, a0) { let mut ids: Vec<u64> = held(w).iter().map(|c| c.id).collect(); ids.push(id); w.no_pay = ids; }
         }
         let m = p.mgr.clone();
         let jh = tokio::spawn(async move { AssertUnwindSafe(m.handle_htlc(&req)).catch_unwind().await.map_err(|_| ()) });
-        w.calls.push(Call { id, a: amt, b11, amount: hamt, expiry, hash: w.hash.clone(), jh: Some(jh), resp: None, life: w.life });
+        w.calls.push(Call { id, a: amt, b11, t: w.mono, rejecting: rejecting_flag, amount: hamt, expiry, hash: w.hash.clone(), jh: Some(jh), resp: None, life: w.life });
     } else if let Some(dt) = act.strip_prefix("tm") { let dt: u64 = dt.parse().unwrap(); tokio::time::advance(Duration::from_secs(dt)).await; w.mono += dt; }
     else if let Some(dt) = act.strip_prefix("tw") {
         let dt: u64 = dt.parse().unwrap(); w.model_wall += dt;
@@ -334,8 +359,9 @@ pub async fn apply(w: &mut World, p: &Plugin, rng: &mut Rng, act: &str) -> Step 
         let st = if st == "f" { PSt::Failed } else { PSt::Complete(st[1..].parse().unwrap()) };
         for q in w.node.lock().unwrap().parts.entry(hh).or_default().iter_mut() { if q.id == id && q.st == PSt::Pending { q.st = st.clone(); } }
     } else if let Some(k) = act.strip_prefix("pe:") {
+        let oinv = w.other.as_ref().map(|o| o.2.clone());
         let mut n = w.node.lock().unwrap();
-        if let Some(i) = n.parked.iter().position(|q| q.served.is_none() && q.method == "pay") {
+        if let Some(i) = n.parked.iter().position(|q| q.served.is_none() && q.method == "pay" && oinv.as_ref().map(|i| q.params["bolt11"].as_str() != Some(i.as_str())).unwrap_or(true)) {
             let r: Reply = if let Some(x) = k.strip_prefix("complete") { Ok(node::pay_reply_json(&hh, "complete", x.parse().unwrap(), false)) }
                 else if k == "pending" { Ok(node::pay_reply_json(&hh, "pending", 0, false)) } else if k == "failed" { Ok(node::pay_reply_json(&hh, "failed", 0, false)) }
                 else if k == "failedwarn" { Ok(node::pay_reply_json(&hh, "failed", 0, true)) } else { Err((Some(210), "Ran out of routes to try".into())) };
@@ -409,7 +435,7 @@ fn would_succeed(w: &mut World, tok: &str) -> bool {
     }
 }
 
-pub struct Gen { pub faults_w: bool, pub faults_r: bool, pub crashes: bool, pub lost: bool, pub replay: bool, pub coop: Option<bool>, pub other: bool, pub hold_first: usize }
+pub struct Gen { pub faults_w: bool, pub faults_r: bool, pub crashes: bool, pub lost: bool, pub replay: bool, pub coop: Option<bool>, pub other: bool, pub other_depth: usize, pub hold_first: usize }
 
 /// enabled actions of the real system, with multiplicity as weight
 pub fn candidates(w: &mut World, rng: &mut Rng, g: &Gen, step: usize) -> Vec<String> {
@@ -486,6 +512,7 @@ pub fn run_case(ctx: &mut Ctx, rng: &mut Rng, sock: &str, open: bool, cfg: SCfg,
         let pre_b = node::preimage_bytes(78);
         let hb = sha256::Hash::hash(&pre_b);
         w.other = Some((hb.to_string(), hb.to_byte_array().to_vec(), make_invoice(&pre_b, Some(1_000_000), 0, 2)));
+        w.other_depth = g.other_depth;
     }
     let mut script: std::collections::VecDeque<String> = script.into();
     let replaying = g.replay;
@@ -494,6 +521,7 @@ pub fn run_case(ctx: &mut Ctx, rng: &mut Rng, sock: &str, open: bool, cfg: SCfg,
     let mut phase_steps = 0usize;
     let mut probe_call: Option<usize> = None;
     let mut hold_pending = false;
+    let mut pending_control: Option<String> = None;
     loop {
         let rt = tokio::runtime::Builder::new_current_thread().enable_all().start_paused(true).build().unwrap();
         let crashed = rt.block_on(async {
@@ -510,6 +538,27 @@ pub fn run_case(ctx: &mut Ctx, rng: &mut Rng, sock: &str, open: bool, cfg: SCfg,
                 let m = p.mgr.clone();
                 w.other_call = Some(tokio::spawn(async move { AssertUnwindSafe(m.handle_htlc(&req)).catch_unwind().await.map_err(|_| ()) }));
                 settle(&w.node).await;
+                // answer the first `other_depth` RPCs of hash B truthfully, then never again (a pay request is never answered)
+                let (ohex, oinv2) = { let o = w.other.as_ref().unwrap(); (o.0.clone(), o.2.clone()) };
+                let is_b = |p: &node::Parked| { let t = p.params.to_string(); p.method != "getinfo" && (t.contains(ohex.as_str()) || t.contains(oinv2.as_str())) };
+                for _ in 0..w.other_depth {
+                    let done = {
+                        let mut n = w.node.lock().unwrap();
+                        match n.parked.iter().position(|p| is_b(p) && p.served.is_none()) {
+                            Some(i) if n.parked[i].method != "pay" => {
+                                let (m2, pr) = (n.parked[i].method.clone(), n.parked[i].params.clone());
+                                let r = n.serve_truthful(&m2, &pr);
+                                let mut pk = n.parked.remove(i);
+                                if let (Some(tx), Some(r)) = (pk.tx.take(), r) { let _ = tx.send(r); }
+                                false
+                            }
+                            _ => true,
+                        }
+                    };
+                    if done { break; }
+                    settle(&w.node).await;
+                }
+                w.other_frozen_log = { let n = w.node.lock().unwrap(); n.log.iter().filter(|l| l.contains(ohex.as_str()) || l.contains(oinv2.as_str())).count() };
             }
             if w.life == 0 { let o = observe(&mut w, ctx, &mut pay_seen, "boot").await; w.obs.push(o); }
             loop {
@@ -531,7 +580,9 @@ pub fn run_case(ctx: &mut Ctx, rng: &mut Rng, sock: &str, open: bool, cfg: SCfg,
                                     if w.cfg.mpp == 0 { phase = Phase::Done; continue; }   // nothing is payable by configuration
                                     if other.is_some() || !held(&w).is_empty() {
                                         let sig = if w.fault_read { format!("hang:read-fault:{}", w.fault_kind) } else { "hang".to_string() };
-                                        ctx.violation("C06", &sig, &format!("calls {:?} still unanswered after the environment answered everything and time passed REPLAY[{}]", held(&w).iter().map(|c| c.id).collect::<Vec<_>>(), replay(&w)));
+                                        let detail = format!("calls {:?} still unanswered after the environment answered everything and time passed REPLAY[{}]", held(&w).iter().map(|c| c.id).collect::<Vec<_>>(), replay(&w));
+                                        // with a second hash frozen: is that hash the cause? decided by a control run after this runtime is gone
+                                        if w.other.is_some() && !w.fault_read { pending_control = Some(detail); } else { ctx.violation("C06", &sig, &detail); }
                                         phase = Phase::Done; continue;
                                     }
                                     phase = Phase::Probe(0); phase_steps = 0; continue;
@@ -584,17 +635,31 @@ pub fn run_case(ctx: &mut Ctx, rng: &mut Rng, sock: &str, open: bool, cfg: SCfg,
         w.life += 1;
         w.init_snap = None;
         w.no_pay.clear();
+        w.idle_since = None;
         w.obs.push("out=[] resp=[] pay=[]".into());
         ctx.count("crashes");
+    }
+    if let Some(detail) = pending_control.take() {
+        // the same actions without the second hash: if the calls are answered then, the frozen hash was the cause
+        let mut ctrl = Ctx::new("control", ctx.seed, false, &format!("{}/control", ctx.dir), None);
+        let gc = Gen { faults_w: false, faults_r: false, crashes: false, lost: false, replay: false, coop: None, other: false, other_depth: 0, hold_first: 0 };
+        run_case(&mut ctrl, rng, sock, open, SCfg { ..w.cfg }, w.acts.clone(), 0, &gc);
+        if ctrl.hangs > 0 { ctx.violation("C06", "hang", &detail); }
+        else { ctx.violation("C14,C06", "hang:other-hash-frozen", &format!("(answered when the other hash is absent; other hash frozen after {} of its RPCs) {}", w.other_depth, detail)); }
     }
     if let Some((oh, _, _)) = w.other.clone() {
         ctx.count("case:with-frozen-other-hash");
         // the frozen hash must have issued exactly its own state lookup and nothing else, and must still be held
+        let oinv3 = w.other.as_ref().map(|o| o.2.clone()).unwrap_or_default();
         let n = w.node.lock().unwrap();
-        let mine: Vec<String> = n.log.iter().filter(|l| l.contains(oh.as_str())).cloned().collect();
-        if mine.iter().any(|l| !l.starts_with("listdatastore")) { ctx.violation("C14", "other-hash-progressed", &format!("the frozen hash issued {:?} although its first RPC was never answered REPLAY[{}]", mine, replay(&w))); }
-        let state_b = n.ds.keys().any(|k| k.iter().any(|x| x == &oh));
-        if state_b { ctx.violation("C14", "other-hash-stored", &format!("datastore holds entries of the frozen hash REPLAY[{}]", replay(&w))); }
+        let mine: Vec<String> = n.log.iter().filter(|l| l.contains(oh.as_str()) || l.contains(oinv3.as_str())).cloned().collect();
+        if mine.len() > w.other_frozen_log { ctx.violation("C14", "other-hash-progressed", &format!("the frozen hash issued {:?} after it was frozen (depth {}) REPLAY[{}]", &mine[w.other_frozen_log..], w.other_depth, replay(&w))); }
+        if w.other_depth == 0 {
+            if mine.iter().any(|l| !l.starts_with("listdatastore")) { ctx.violation("C14", "other-hash-progressed", &format!("the frozen hash issued {:?} although its first RPC was never answered REPLAY[{}]", mine, replay(&w))); }
+            let state_b = n.ds.keys().any(|k| k.iter().any(|x| x == &oh));
+            if state_b { ctx.violation("C14", "other-hash-stored", &format!("datastore holds entries of the frozen hash REPLAY[{}]", replay(&w))); }
+        }
+        ctx.count(&format!("case:other-frozen-depth-{}", w.other_depth));
     }
     let line = format!("sy {} {}", header(&w), if w.acts.is_empty() { "-".to_string() } else { w.acts.join(" ") });
     let paid = w.obs.iter().any(|o| !o.ends_with("pay=[]"));
@@ -612,7 +677,7 @@ fn enumerate_faults(ctx: &mut Ctx, rng: &mut Rng, sock: &str, lost: bool) {
         for open in [false, true] {
             let nd = 1_006_000u64;
             let first = format!("ar:0:1000000:{}:1400:300:{}", nd, nd);
-            let g0 = Gen { faults_w: false, faults_r: false, crashes: false, lost: false, replay: false, coop: Some(complete), other: false, hold_first: 0 };
+            let g0 = Gen { faults_w: false, faults_r: false, crashes: false, lost: false, replay: false, coop: Some(complete), other: false, other_depth: 0, hold_first: 0 };
             let base = run_case(ctx, rng, sock, open, default_cfg(), vec![first.clone()], 60, &g0);
             // the cooperative part ends where the drain would start: keep the prefix up to the first probe arrival
             let end = base.iter().skip(1).position(|a| a.starts_with("ar:")).map(|p| p + 1).unwrap_or(base.len());
@@ -620,18 +685,18 @@ fn enumerate_faults(ctx: &mut Ctx, rng: &mut Rng, sock: &str, lost: bool) {
             for k in 1..=base.len() {
                 // crash after the k-th action
                 let mut sc: Vec<String> = base[..k].to_vec(); sc.push("cr".into());
-                let g = Gen { faults_w: false, faults_r: false, crashes: false, lost: false, replay: false, coop: None, other: false, hold_first: 0 };
+                let g = Gen { faults_w: false, faults_r: false, crashes: false, lost: false, replay: false, coop: None, other: false, other_depth: 0, hold_first: 0 };
                 run_case(ctx, rng, sock, open, default_cfg(), sc, 0, &g); ctx.count("enum:crash-point");
                 // the k-th action, if it serves a write, with each fault
                 if k < base.len() { if let Some(tok) = base[k].strip_prefix("s:") { if tok.starts_with("ws") || tok.starts_with("wa") {
                     let kinds: &[&str] = if lost { &["fL"] } else { &["fR", "fA"] };
                     for f in kinds {
                         let mut sc: Vec<String> = base[..k].to_vec(); sc.push(format!("{}:{}", f, tok));
-                        let g = Gen { faults_w: false, faults_r: false, crashes: false, lost, replay: false, coop: Some(complete), other: false, hold_first: 0 };
+                        let g = Gen { faults_w: false, faults_r: false, crashes: false, lost, replay: false, coop: Some(complete), other: false, other_depth: 0, hold_first: 0 };
                         run_case(ctx, rng, sock, open, default_cfg(), sc.clone(), 80, &g); ctx.count("enum:write-fault");
                         // … and a crash right after the faulty write
                         sc.push(format!("d:{}", tok)); sc.push("cr".into());
-                        let g = Gen { faults_w: false, faults_r: false, crashes: false, lost, replay: false, coop: None, other: false, hold_first: 0 };
+                        let g = Gen { faults_w: false, faults_r: false, crashes: false, lost, replay: false, coop: None, other: false, other_depth: 0, hold_first: 0 };
                         run_case(ctx, rng, sock, open, default_cfg(), sc, 0, &g); ctx.count("enum:write-fault-then-crash");
                     }
                 } } }
@@ -648,7 +713,7 @@ fn enumerate_overlap(ctx: &mut Ctx, rng: &mut Rng, sock: &str) {
     let ar = format!("ar:0:1000000:{}:1400:300:{}", nd, nd);
     for open in [false, true] {
         for first_complete in [false, true] {
-            let g0 = Gen { faults_w: false, faults_r: false, crashes: false, lost: false, replay: false, coop: Some(first_complete), other: false, hold_first: 0 };
+            let g0 = Gen { faults_w: false, faults_r: false, crashes: false, lost: false, replay: false, coop: Some(first_complete), other: false, other_depth: 0, hold_first: 0 };
             let base = run_case(ctx, rng, sock, open, default_cfg(), vec![ar.clone()], 60, &g0);
             let first_bk = if first_complete { format!("s:wsS{}:cor", PRE) } else { "s:wa1:cor".to_string() };
             let j = match base.iter().position(|a| *a == first_bk) { Some(j) => j, None => continue };
@@ -657,18 +722,18 @@ fn enumerate_overlap(ctx: &mut Ctx, rng: &mut Rng, sock: &str) {
                 let held_tok = base[hold_at].clone();
                 for second_complete in [true, false] {
                     let mut s0: Vec<String> = base[..hold_at].to_vec(); s0.push(ar.clone());
-                    let g = Gen { faults_w: false, faults_r: false, crashes: false, lost: false, replay: false, coop: Some(second_complete), other: false, hold_first: 1 };
+                    let g = Gen { faults_w: false, faults_r: false, crashes: false, lost: false, replay: false, coop: Some(second_complete), other: false, other_depth: 0, hold_first: 1 };
                     let full = run_case(ctx, rng, sock, open, default_cfg(), s0.clone(), 80, &g); ctx.count("enum:overlap");
                     let tail: Vec<String> = full[s0.len().min(full.len())..].to_vec();
                     let cut = tail.iter().position(|a| *a == held_tok).unwrap_or(tail.len());
                     for k in 0..cut {
                         let mut sc = s0.clone(); sc.extend(tail[..k].iter().cloned());
                         // release: the held write is the oldest parked request, the cooperative environment serves it first
-                        let g = Gen { faults_w: false, faults_r: false, crashes: false, lost: false, replay: false, coop: Some(second_complete), other: false, hold_first: 0 };
+                        let g = Gen { faults_w: false, faults_r: false, crashes: false, lost: false, replay: false, coop: Some(second_complete), other: false, other_depth: 0, hold_first: 0 };
                         run_case(ctx, rng, sock, open, default_cfg(), sc.clone(), 80, &g); ctx.count("enum:overlap");
                         // … and the same with a crash right after the released write was applied
                         sc.push(held_tok.clone()); sc.push(format!("d:{}", &held_tok[2..])); sc.push("cr".into());
-                        let g = Gen { faults_w: false, faults_r: false, crashes: false, lost: false, replay: false, coop: None, other: false, hold_first: 0 };
+                        let g = Gen { faults_w: false, faults_r: false, crashes: false, lost: false, replay: false, coop: None, other: false, other_depth: 0, hold_first: 0 };
                         run_case(ctx, rng, sock, open, default_cfg(), sc, 0, &g); ctx.count("enum:overlap-then-crash");
                     }
                 }
@@ -682,13 +747,13 @@ pub fn run(mut ctx: Ctx) {
     let sock = format!("{}/system.sock", ctx.dir);
     if let Some(path) = ctx.replay.clone() {
         for line in std::fs::read_to_string(path).expect("replay").lines() {
-            if let Some((cfg, open, script)) = parse_line(line) { let l = script.len(); run_case(&mut ctx, &mut rng, &sock, open, cfg, script, l, &Gen { faults_w: false, faults_r: false, crashes: false, lost: false, replay: true, coop: None, other: false, hold_first: 0 }); }
+            if let Some((cfg, open, script)) = parse_line(line) { let l = script.len(); run_case(&mut ctx, &mut rng, &sock, open, cfg, script, l, &Gen { faults_w: false, faults_r: false, crashes: false, lost: false, replay: true, coop: None, other: false, other_depth: 0, hold_first: 0 }); }
         }
         ctx.finish("replay", "");
         return;
     }
     if let Ok(c) = std::fs::read_to_string("/verif/corpus/system/cases.txt") {
-        for line in c.lines() { if let Some((cfg, open, script)) = parse_line(line) { let l = script.len(); run_case(&mut ctx, &mut rng, &sock, open, cfg, script, l, &Gen { faults_w: false, faults_r: false, crashes: false, lost: false, replay: false, coop: None, other: false, hold_first: 0 }); ctx.count("corpus"); } }
+        for line in c.lines() { if let Some((cfg, open, script)) = parse_line(line) { let l = script.len(); run_case(&mut ctx, &mut rng, &sock, open, cfg, script, l, &Gen { faults_w: false, faults_r: false, crashes: false, lost: false, replay: false, coop: None, other: false, other_depth: 0, hold_first: 0 }); ctx.count("corpus"); } }
     }
     enumerate_faults(&mut ctx, &mut rng, &sock, false);
     enumerate_overlap(&mut ctx, &mut rng, &sock);
@@ -698,7 +763,7 @@ pub fn run(mut ctx: Ctx) {
         let open = i % 4 == 3;
         let mut cfg = default_cfg();
         if i % 9 == 8 { cfg.mpp = *rng.pick(&[0u64, 1, 30]); }
-        let g = Gen { faults_w: i % 3 == 1, faults_r: ctx.thorough && i % 10 == 9, crashes: i % 2 == 1, lost: ctx.thorough && i % 17 == 16, replay: false, coop: None, other: i % 4 == 2, hold_first: 0 };
+        let g = Gen { faults_w: i % 3 == 1, faults_r: ctx.thorough && i % 10 == 9, crashes: i % 2 == 1, lost: ctx.thorough && i % 17 == 16, replay: false, coop: None, other: i % 4 == 2, other_depth: (i / 4) % 5, hold_first: 0 };
         let len = 25 + rng.below(40) as usize;
         run_case(&mut ctx, &mut rng, &sock, open, cfg, vec![], len, &g);
     }
